@@ -695,9 +695,9 @@ func Run(seed uint64, index int64, o hx.Opts) *hx.Result {
 			// transports of this run
 			t0, t1 := transport.NewTransport("nbt"), transport.NewTransport("nbt")
 			if t0.Connect(xIP, 139) == nil && t1.Connect(xIP, 139) == nil {
-				t0.Close()
-				t0.Close()
 				t1.Close()
+				t0.Close()
+				t0.Close() // a second Close is a harmless no-op, not a second hand-back of anything
 				rt.Probe(PPrelude)
 			}
 		}
